@@ -16,7 +16,7 @@ UNITS = ['array.c', 'linked_list.c', 'dlinked_list.c', 'obj.c', 'objpair.c', 'st
 def families(tier):
     q = tier == 'quick'
     N = 3 if q else 4
-    f = Family('lists', 'c02_lists.c', units=UNITS, stubs=['msgs_stub.c', 'libc_models.c', 'fmt_stub.c'], unwind=N + 5,
+    f = Family('lists', 'c02_lists.c', units=UNITS, stubs=['msgs_stub.c', 'libc_models.c', 'fmt_stub.c', 'ptr_models.c'], unwind=N + 5,
                cap=(120, 3) if q else (400, 12), flags=['--object-bits', '10'], restrict=True, elem_restrict=CONTAINER_ELEMS)
     for ci, cn in enumerate(CLS):
         P = 'C02/%s/' % cn
